@@ -475,7 +475,10 @@ func runCase(r *vf.Run, rng *vf.RNG, idx int) {
 		}
 	}
 	if !mc.failed {
-		mc.checkClone("at the end of the history")
+		if p := vf.Catch(func() { mc.checkClone("at the end of the history") }); p != nil {
+			mc.lastOp = "clone"
+			mc.report("panic:deepclone", fmt.Sprint(p))
+		}
 	}
 	r.Add("ops", int64(len(mc.ops)))
 	fp := ""
